@@ -72,6 +72,11 @@ type Scenario struct {
 	Clock  string       `json:"clock,omitempty"`  // "t" one instant per step (default) | "f" frozen | "c" coarse (step/3)
 	Cands  []int        `json:"cands,omitempty"`  // the n-th rng.Read yields candidate Cands[n % len] (empty: n)
 	Nested bool         `json:"nested,omitempty"` // no hooks: Progs[0][0] with its Rivals
+	// Writable: the Collection and the Value are configured WithWritablePaths on this one field ("a" seconds | "b"
+	// nanos): every write, masked or not, only replaces that field and carries the other one over from the value
+	// it read (update masks of such a scenario name the writable field only: anything else is refused by
+	// FieldUpdater.Validate before the write path is entered).
+	Writable string `json:"writable,omitempty"`
 }
 
 func (sc Scenario) clock() string {
@@ -118,6 +123,15 @@ func (o Op) mask() string {
 		m += "+"
 	}
 	return m
+}
+
+// eff is the call as the merge sees it on a resource whose writable fields are restricted to one field: whatever
+// the update mask says (it can only name that field), exactly that field is taken from the written message.
+func (o Op) eff(writable string) Op {
+	if writable != "" && o.K != "d" {
+		o.Mask = writable
+	}
+	return o
 }
 
 func (o Op) encode() string {
@@ -181,7 +195,7 @@ func driverLine(sc Scenario, progs [][]Op, sched []int) string {
 	for _, p := range progs {
 		var ops []string
 		for _, o := range p {
-			ops = append(ops, o.encode())
+			ops = append(ops, o.eff(sc.Writable).encode())
 		}
 		s := strings.Join(ops, ";")
 		if s == "" {
@@ -291,6 +305,14 @@ func newWorld(sc Scenario, free bool) *world {
 	w := &world{clk: &clock{mode: sc.clock(), free: free}, rng: &scriptRNG{script: sc.Cands}}
 	copts := []resource.Option{resource.WithClock(w.clk), resource.WithRNG(w.rng)}
 	vopts := []resource.Option{resource.WithClock(w.clk)}
+	switch sc.Writable {
+	case "a":
+		copts = append(copts, resource.WithWritablePaths(&durationpb.Duration{}, "seconds"))
+		vopts = append(vopts, resource.WithWritablePaths(&durationpb.Duration{}, "seconds"))
+	case "b":
+		copts = append(copts, resource.WithWritablePaths(&durationpb.Duration{}, "nanos"))
+		vopts = append(vopts, resource.WithWritablePaths(&durationpb.Duration{}, "nanos"))
+	}
 	for _, id := range sc.initIDs() {
 		v := sc.Init[strconv.Itoa(id)]
 		if id == valueID {
